@@ -931,6 +931,112 @@ Proof.
       pose proof (Hsel i Hi' Hpos). lra.
 Qed.
 
+(* ---- [ext] the re-binning conserves the NUMBER of particles inside the new range ---------------- *)
+Lemma sumR_zipWith_zero {A} (l : list A) (D : list R) : sumR (zipWith (fun _ d => 0 * d) l D) = 0.
+Proof. revert D; induction l as [|a l IH]; intros [|d D]; cbn [zipWith sumT]; Rnorm; try lra. rewrite IH. lra. Qed.
+
+Lemma sumR_zipWith_add {A} (f g : A -> R) (l : list A) (D : list R) :
+  sumR (zipWith (fun c d => f c * d) l D) + sumR (zipWith (fun c d => g c * d) l D) =
+  sumR (zipWith (fun c d => (f c + g c) * d) l D).
+Proof. revert D; induction l as [|a l IH]; intros [|d D]; cbn [zipWith sumT]; Rnorm; try lra. rewrite <- IH. lra. Qed.
+
+Lemma sum_swap {A B} (f : A -> B -> R) (P : list A) (Cs : list B) (D : list R) :
+  sumR (map (fun c' => sumR (zipWith (fun c d => f c' c * d) Cs D)) P) =
+  sumR (zipWith (fun c d => sumR (map (fun c' => f c' c) P) * d) Cs D).
+Proof.
+  induction P as [|p P IH]; cbn [map sumT].
+  - Rnorm. symmetry. apply sumR_zipWith_zero.
+  - rewrite IH. Rnorm. apply (sumR_zipWith_add (fun c => f p c) (fun c => sumR (map (fun c' => f c' c) P))).
+Qed.
+
+Definition clamp (lo hi x : R) : R := Rmin (Rmax x lo) hi.
+
+Lemma overlap_clamp (a b lo hi : R) : a <= b -> lo <= hi ->
+  overlap Rops (a, b) (lo, hi) = clamp lo hi b - clamp lo hi a.
+Proof.
+  intros Hab Hlh. unfold overlap, clamp; cbn [fst snd]. rewrite !maxT_Rmax, minT_Rmin. Rnorm.
+  unfold Rmax, Rmin. destruct (Rle_dec b hi), (Rle_dec a lo), (Rle_dec b lo);
+    repeat (match goal with |- context [Rle_dec ?x ?y] => destruct (Rle_dec x y) end); lra.
+Qed.
+
+Lemma telescope_pairs (g : R -> R) (l : list R) : l <> [] ->
+  sumR (map (fun c' => g (snd c') - g (fst c')) (pairs Rops l)) = g (last l 0) - g (nth 0 l 0).
+Proof.
+  induction l as [|a [|b l] IH]; intros H; [congruence| |].
+  - cbn. lra.
+  - specialize (IH ltac:(discriminate)).
+    assert (E : pairs Rops (a :: b :: l) = (a, b) :: pairs Rops (b :: l)).
+    { unfold pairs, init_, tail_. destruct l; reflexivity. }
+    rewrite E. cbn [map sumT fst snd]. rewrite IH. Rnorm.
+    change (last (a :: b :: l) 0) with (last (b :: l) 0). cbn [nth]. lra.
+Qed.
+
+Lemma pairs_ordered (l : list R) c' : incr l -> In c' (pairs Rops l) -> fst c' <= snd c'.
+Proof.
+  intros Hi Hin. destruct (In_nth _ _ (0, 0) Hin) as (j & Hj & E). rewrite pairs_length in Hj.
+  rewrite nth_pairs in E by lia. rewrite <- E. cbn [fst snd]. left. apply Hi. lia.
+Qed.
+
+Lemma sumR_map_ext {A} (f g : A -> R) (l : list A) : (forall x, In x l -> f x = g x) -> sumR (map f l) = sumR (map g l).
+Proof.
+  induction l as [|a l IH]; intros H; cbn [map sumT]; [reflexivity|].
+  rewrite (H a (or_introl eq_refl)), IH; auto. intros x Hx. apply H. right. exact Hx.
+Qed.
+
+(* the new classes tile [b'_0, b'_n]: an old class inside that range is shared out completely *)
+Lemma tiling (l : list R) (lo hi : R) : incr l -> (2 <= length l)%nat -> lo <= hi ->
+  nth 0 l 0 <= lo -> hi <= last l 0 ->
+  sumR (map (fun c' => overlap Rops c' (lo, hi)) (pairs Rops l)) = hi - lo.
+Proof.
+  intros Hi Hl Hlh H0 Hn.
+  rewrite (sumR_map_ext _ (fun c' => clamp lo hi (snd c') - clamp lo hi (fst c'))).
+  - rewrite telescope_pairs by (destruct l; simpl in *; [lia|discriminate]).
+    unfold clamp. rewrite (Rmax_left (last l 0)) by lra. rewrite (Rmin_right _ hi) by lra.
+    rewrite (Rmax_right (nth 0 l 0)) by lra. rewrite (Rmin_left lo hi) by lra. reflexivity.
+  - intros [a b] Hin. pose proof (pairs_ordered l (a, b) Hi Hin) as Hab. cbn [fst snd] in *.
+    apply overlap_clamp; auto.
+Qed.
+
+Lemma sumR_nth_ext (l1 l2 : list R) : length l1 = length l2 ->
+  (forall k, (k < length l1)%nat -> nth k l1 0 = nth k l2 0) -> sumR l1 = sumR l2.
+Proof. intros L E. f_equal. apply (nth_ext _ _ 0 0); auto. Qed.
+
+Lemma remap_conserves_number (s : state Rops) cmin cmax nb : Inv s -> change_ok cmin cmax nb ->
+  covered s cmin (newMax cmin cmax) ->
+  sumR (remapped s cmin cmax nb) = sumR (psd s).
+Proof.
+  intros H C Hcov.
+  destruct (inv_consistent s H) as (L1 & L2 & L3 & _ & _ & _ & Hinc & _ & Hnn).
+  pose proof (newGrid_ok s cmin cmax nb H C) as G'.
+  pose proof (grid_length _ _ _ _ G') as L'. pose proof (grid_incr _ _ _ _ G') as Hinc'.
+  unfold remapped, remap.
+  set (b' := newBounds s cmin cmax nb) in *. set (b := bounds s) in *. set (dens := density (psd s) b).
+  rewrite (sum_swap (fun c' c => overlap Rops c' c)).
+  assert (Ld : length dens = bins s).
+  { unfold dens, density. rewrite zipWith_length, diffs_length. change (T Rops) with R in *. lia. }
+  apply sumR_nth_ext.
+  - rewrite zipWith_length, pairs_length. change (T Rops) with R in *. lia.
+  - intros k Hk. rewrite zipWith_length, pairs_length in Hk. change (T Rops) with R in *.
+    assert (Hkb : (k < bins s)%nat) by lia.
+    rewrite (nth_zipWith _ _ _ _ _ (0, 0) 0) by (rewrite ?pairs_length; change (T Rops) with R in *; lia).
+    rewrite nth_pairs by lia.
+    assert (Hd : nth k dens 0 = nth k (psd s) 0 / (nth (S k) b 0 - nth k b 0)).
+    { unfold dens, density. rewrite (nth_zipWith _ _ _ _ _ 0 0) by (rewrite ?diffs_length; change (T Rops) with R in *; lia).
+      rewrite nth_diffs by lia. reflexivity. }
+    pose proof (Hinc k (S k) ltac:(lia)) as Hlt.
+    destruct (Rle_lt_or_eq_dec 0 _ (Hnn k)) as [Hpos|Hz].
+    + destruct (Hcov k Hkb Hpos) as (Hlo & Hhi). fold b in Hlo, Hhi.
+      rewrite tiling.
+      * rewrite Hd. Req. field. lra.
+      * exact Hinc'.
+      * Tfix. rewrite L'. destruct G' as (Hn' & _). lia.
+      * lra.
+      * Tfix. rewrite (grid_nth _ _ _ _ 0%nat G') by lia. rewrite lin_0. exact Hlo.
+      * rewrite last_nth. Tfix. rewrite L'. replace (S (newBins s nb) - 1)%nat with (newBins s nb) by lia.
+        rewrite (grid_nth _ _ _ _ _ G') by lia. destruct G' as (Hn' & _). rewrite lin_n by auto. exact Hhi.
+    + Tfix. rewrite Hd, <- Hz. unfold Rdiv. Req. ring.
+Qed.
+
 (* every state reachable from the constructor is consistent in the sense of the property text *)
 Lemma reachable_consistent c ops : good_cfg c -> ops_ok (init Rops c) ops ->
   let s := run Rops (init Rops c) ops in
